@@ -33,6 +33,18 @@ def scratch_parent():
     return tempfile.gettempdir()
 
 
+def world_parent():
+    """Directory the worlds of this process are created in.  A coordinator creates one
+    (`cls-<8 chars>`, passed down in VERIF_SCRATCH) and removes it with everything killed workers
+    left behind; a stand-alone process (replay, shrink, self-test) creates its own.  The path has
+    the same length either way, so byte offsets inside a report - and with them the mutation ticks
+    recorded in a replay file - do not move."""
+    d = os.environ.get("VERIF_SCRATCH")
+    if d and os.path.isdir(d):
+        return d, False
+    return tempfile.mkdtemp(prefix="cls-", dir=scratch_parent()), True
+
+
 def _ropen(path, mode="rb"):
     return REAL["io.open"](path, mode)
 
@@ -165,7 +177,9 @@ def _steps_end() -> int:
 # ----------------------------------------------------------------------------
 class World:
     def __init__(self, budget=STEP_BUDGET, dot_root=False):
-        self.base = tempfile.mkdtemp(prefix="clsim-", dir=scratch_parent())
+        parent, self._own_parent = world_parent()
+        self._parent = parent
+        self.base = tempfile.mkdtemp(prefix="clsim-", dir=parent)
         # `top` holds the codebase root and its sibling `outside`; with dot_root the whole
         # checkout lives below a dot-directory (~/.jenkins/workspace/proj): only components
         # BELOW the root may hide a file
@@ -198,6 +212,8 @@ class World:
             except OSError:
                 pass
             shutil.rmtree(self.base, ignore_errors=True)
+            if self._own_parent:
+                shutil.rmtree(self._parent, ignore_errors=True)
             self.closed = True
 
     def __enter__(self):
